@@ -164,9 +164,16 @@ func (d *zz29DS) Close() error                            { return nil }
 type zz29Routing struct {
 	m    map[string][]byte
 	puts int
+	// onPut, when set, runs once at the start of the next PutValue, before the new record is visible: the
+	// deterministic placement of "a resolve of the name runs while a publish is handing its record to routing"
+	onPut func()
 }
 
 func (r *zz29Routing) PutValue(ctx context.Context, k string, v []byte, _ ...routing.Option) error {
+	if f := r.onPut; f != nil {
+		r.onPut = nil
+		f()
+	}
 	r.m[k] = v
 	r.puts++
 	return nil
